@@ -181,7 +181,11 @@ const (
 	// maxTSNOffset is the maximum offset over the cummulative TSN that we will enqueue
 	// irrespective of the receive buffer size
 	// see getMaxTSNOffset.
-	maxTSNOffset = 40000
+	// Every TSN accepted above a hole has to be named by the next SACK. The densest
+	// pattern (every other TSN) needs one gap ack block per two TSNs, and a SACK
+	// chunk holds at most (65535-16)/4 = 16379 of them: the 16-bit chunk length
+	// wraps beyond that and the peer cannot decode the SACK at all.
+	maxTSNOffset = 32704
 	// maxReconfigRequests is the maximum number of reconfig requests we will keep outstanding.
 	maxReconfigRequests = 1000
 
